@@ -106,7 +106,11 @@ func ErrorCorrection_EncodeECC200(codewords []byte, symbolInfo *SymbolInfo) ([]b
 			}
 			ecc, _ := createECCBlock(temp, errorSizes[block])
 			pos := 0
-			for e := block; e < errorSizes[block]*blockCount; e += blockCount {
+			// the round-robin deal of codewords to blocks continues from the data
+			// into the error correction; this differs from "e := block" only for
+			// 144x144, whose data capacity is not a multiple of the block count
+			first := (block - symbolInfo.GetDataCapacity()%blockCount + blockCount) % blockCount
+			for e := first; e < errorSizes[block]*blockCount; e += blockCount {
 				sb[symbolInfo.GetDataCapacity()+e] = ecc[pos]
 				pos++
 			}
